@@ -96,6 +96,19 @@ func (r *ResponseFilterWriter) WriteHeader(code int) {
 
 // Write wraps underlying Write method and compresses if filters
 // are satisfied
+// Flush commits the header through WriteHeader (so that the compression
+// decision and the matching headers are made first) and then flushes.
+func (r *ResponseFilterWriter) Flush() {
+	if !r.statusCodeWritten {
+		r.WriteHeader(http.StatusOK)
+	}
+	if r.shouldCompress {
+		r.gzipResponseWriter.Flush()
+		return
+	}
+	r.gzipResponseWriter.ResponseWriterWrapper.Flush()
+}
+
 func (r *ResponseFilterWriter) Write(b []byte) (int, error) {
 	if !r.statusCodeWritten {
 		r.WriteHeader(http.StatusOK)
